@@ -22,7 +22,7 @@ PURE_EXT = {'cosf', 'sinf', 'sqrtf', 'fabsf', 'log2f', 'exp2f', 'ceilf', 'floorf
             'llvm.ceil.f64', 'llvm.assume', 'llvm.x86.avx2.psllv.q.256', 'llvm.x86.avx2.psrlv.q.256',
             'llvm.fma.v8f64', 'llvm.ctpop.i64', 'llvm.floor.f64', 'llvm.sqrt.f64', 'llvm.fmuladd.v4f64',
             'llvm.lifetime.start.p0i8', 'llvm.lifetime.end.p0i8', 'llvm.dbg.value', 'llvm.dbg.declare',
-            'llvm.experimental.noalias.scope.decl'}
+            'llvm.experimental.noalias.scope.decl', 'nextafter', 'nextafterf', 'ldexp', 'ldexpf', 'scalbn', 'scalbnf', 'fmin', 'fmax', 'copysign', 'fmod', 'trunc', 'truncf', 'nearbyint', 'fma', 'fmaf', 'hypot', 'atan2', 'tan', 'atan', 'acos', 'asin', 'sqrtf', 'cbrt', 'lround', 'lrint', 'llrint', 'llround'}
 ALLOC_EXT = {'malloc': None, 'aligned_alloc': None, 'calloc': None, 'posix_memalign': None, '_aligned_malloc': None}
 FREE_EXT = {'free', '_aligned_free'}
 FPENV = ('glob', None, '<floating-point environment>', 0)
